@@ -142,6 +142,7 @@ def gen_case(rng, tier="quick"):
         "bufsize": rng.choice((1, 7, 16, 64, 512, 8192)),
         "strided": rng.random() < 0.1,
         "backing": "path" if rng.random() < 0.2 else "memfd",
+        "numpy_common": rng.random() < 0.05,
     }
 
 
@@ -236,7 +237,7 @@ def real_save(case, d, log, mode=None):
     try:
         with warnings.catch_warnings():
             warnings.simplefilter("ignore")
-            IndxIO.save(f, entries, case["common"], U32)
+            IndxIO.save(f, entries, numpy.int64(case["common"]) if case.get("numpy_common") else case["common"], U32)
         f.flush()
     except Exception as e:
         raise SaveRaised(e)
